@@ -5,9 +5,12 @@ import (
 	"fmt"
 	"os"
 	"path/filepath"
+	"runtime"
 	"sort"
 	"strconv"
 	"strings"
+	"sync"
+	"time"
 )
 
 // Violation is a property failure found on the implementation by an oracle.
@@ -20,23 +23,23 @@ type Violation struct {
 
 // Report is what a generator hands back to bin/vcheck.
 type Report struct {
-	Property     string         `json:"property"`
-	Seed         uint64         `json:"seed"`
-	Tier         string         `json:"tier"`
-	Evaluations  int            `json:"evaluations"`
-	Distinct     int            `json:"distinct_nontrivial"`
-	Rule         string         `json:"rule"`
-	Samples      []interface{}  `json:"samples"`
-	Distribution map[string]int `json:"distribution"`
-	Violations   []Violation    `json:"violations"`
-	CaseFiles    []string       `json:"case_files"`
-	NCases       int            `json:"n_cases"`
-	CaseNames    []string       `json:"case_names"`
-	ShardSize    int            `json:"shard_size"`
-	Scenarios     int           `json:"scenarios"`
-	ScenarioSteps int           `json:"scenario_steps"`
-	ScenFiles     []string      `json:"scen_files"`
-	ScenShard     int           `json:"scen_shard"`
+	Property      string         `json:"property"`
+	Seed          uint64         `json:"seed"`
+	Tier          string         `json:"tier"`
+	Evaluations   int            `json:"evaluations"`
+	Distinct      int            `json:"distinct_nontrivial"`
+	Rule          string         `json:"rule"`
+	Samples       []interface{}  `json:"samples"`
+	Distribution  map[string]int `json:"distribution"`
+	Violations    []Violation    `json:"violations"`
+	CaseFiles     []string       `json:"case_files"`
+	NCases        int            `json:"n_cases"`
+	CaseNames     []string       `json:"case_names"`
+	ShardSize     int            `json:"shard_size"`
+	Scenarios     int            `json:"scenarios"`
+	ScenarioSteps int            `json:"scenario_steps"`
+	ScenFiles     []string       `json:"scen_files"`
+	ScenShard     int            `json:"scen_shard"`
 }
 
 type Ctx struct {
@@ -51,7 +54,7 @@ type Ctx struct {
 	seen  map[string]bool
 }
 
-func (c *Ctx) Thorough() bool { return c.Tier == "thorough" }
+func (c *Ctx) Thorough() bool   { return c.Tier == "thorough" }
 func (c *Ctx) Count(key string) { c.Rep.Distribution[key]++ }
 func (c *Ctx) Violate(kind, trigger, detail string, replay interface{}) {
 	if len(c.Rep.Violations) < 50 {
@@ -205,7 +208,9 @@ func main() {
 	if len(os.Args) > 5 {
 		replayFile = os.Args[5]
 	}
+	go watchdog(ctx, out, prop, tier)
 	g(ctx)
+	watch("")
 	if err := ctx.writeCases(); err != nil {
 		fmt.Fprintln(os.Stderr, err)
 		os.Exit(2)
@@ -223,3 +228,39 @@ func main() {
 }
 
 var replayFile string
+
+// ---- watchdog: a call into the library that hangs or eats memory must end the run with a report, not the machine ----
+var watchMu sync.Mutex
+var watchLabel string
+var watchSince time.Time
+
+// watch names the library call that is about to run ("" = none)
+func watch(label string) {
+	watchMu.Lock()
+	watchLabel, watchSince = label, time.Now()
+	watchMu.Unlock()
+}
+
+func watchdog(c *Ctx, out, prop, tier string) {
+	var ms runtime.MemStats
+	for {
+		time.Sleep(100 * time.Millisecond)
+		watchMu.Lock()
+		label, since := watchLabel, watchSince
+		watchMu.Unlock()
+		runtime.ReadMemStats(&ms)
+		hang := label != "" && time.Since(since) > 20*time.Second
+		blow := ms.HeapAlloc > 5<<30
+		if !hang && !blow {
+			continue
+		}
+		kind := "call-does-not-return"
+		if blow {
+			kind = "memory-blow-up"
+		}
+		c.Rep.Violations = append(c.Rep.Violations, Violation{kind, label, fmt.Sprintf("%s: running for %v, heap %d MB", label, time.Since(since).Round(time.Second), ms.HeapAlloc>>20), nil})
+		js, _ := json.MarshalIndent(c.Rep, "", " ")
+		_ = os.WriteFile(filepath.Join(out, prop+"_"+tier+"_report.json"), js, 0o644)
+		os.Exit(0)
+	}
+}
